@@ -13,7 +13,7 @@ ASSUMPTIONS = [
 OUTSIDE = ['degrees > 5', 'more than 3 distinct interior knots', 'sample sizes > 5 (quick) / 9 (thorough)',
            'symbolic knots for degree > 3', 'IEEE rounding, 18-digit rounding of linspace']
 BOUNDS = {
-    'quick': 'curves p=1..3 x KQ patterns (+unclamped, +domain [2,5]) 2-D/3-D rational/non-rational; surfaces (1,2),(2,1),(2,2),(3,2); volume (1,1,2),(2,1,1); grids 2..4; sampled segments / sub-rectangles incl. start > stop; knot read-modify-write between two grid evaluations',
+    'quick': 'curves p=1..3 x KQ patterns (+unclamped, +domain [2,5]) 2-D/3-D rational/non-rational; surfaces (1,2),(2,1),(2,2),(3,2); volume (1,1,2),(2,1,1); grids 2..4; sampled segments / sub-rectangles incl. start > stop; knot read-modify-write between two grid evaluations; evaluation after a rejected ragged set_ctrlpts',
     'thorough': 'curves p=1..5 x all patterns with <=3 interior knots; symbolic knots p<=3; surfaces up to (3,3); volumes up to (2,2,2); grids 2..7',
 }
 
